@@ -100,7 +100,7 @@ def enc_cell(x):
 
 NODE_COLS = ["NodeClass", "NodeId", "BrowseName", "BrowseNameNamespace", "DisplayName", "Description", "Value", "ValueRank", "ns"]
 REF_COLS = ["ParentNodeId", "DataType", "MethodDeclarationId"]
-def random_graph_tables(rng, values):
+def random_graph_tables(rng, values, twin=None):
     from opcua_tools.ua_data_types import UANodeId
     n = rng.randint(2, 7)
     ids = list(range(n))
@@ -114,6 +114,12 @@ def random_graph_tables(rng, values):
                          Value=(rng.choice(safe) if rng.random() < 0.6 else pd.NA), ValueRank=rng.choice([-1, 1, 2, 10]), ns=nids[i].namespace,
                          ParentNodeId=(rng.choice(ids) if rng.random() < 0.5 else pd.NA), DataType=(rng.choice(ids) if rng.random() < 0.5 else pd.NA),
                          MethodDeclarationId=(rng.choice(ids) if rng.random() < 0.2 else pd.NA)))
+    if twin or (twin is None and rng.random() < 0.25):
+        # one NodeId held by two rows under two different ids (two parsed graphs merged by shifting the ids of the second): the rows agree in class,
+        # names shown, description and value and differ further to the right (browse name, value rank, id-valued columns)
+        j, k = rng.sample(ids, 2)
+        for c in ("NodeClass", "NodeId", "DisplayName", "Description", "Value", "ns"): rows[k][c] = rows[j][c]
+        rows[k]["BrowseName"] = rng.choice([b for b in ["A", "B", "a", "Ä", "x y"] if b != rows[j]["BrowseName"]])
     refs = [(rng.choice(ids), rng.choice(ids), rng.choice(ids)) for _ in range(rng.randint(0, 8))]
     # a reference whose type is no node of the graph (a type of a companion specification that was not loaded): its cell stays empty
     if refs and rng.random() < 0.3:
@@ -176,8 +182,8 @@ def check(ctx):
         reqs.append([Sym("c14_cmp"), uakey(P[i]), uakey(P[j])]); meta.append(("cmp", i, j))
         reqs.append([Sym("c14_eq"), uaval(P[i]), uaval(P[j])]); meta.append(("eq", i, j))
     tables = []
-    for _ in range(25 if ctx.quick() else 400):
-        rows, refs = random_graph_tables(rng, P)
+    for t_ in range(25 if ctx.quick() else 400):
+        rows, refs = random_graph_tables(rng, P, twin=True if t_ in (1, 2, 3) else None)
         a, b = model_reqs(rows, refs); reqs.append(a); meta.append(("nodes", len(tables), 0)); reqs.append(b); meta.append(("refs", len(tables), 0))
         tables.append((rows, refs))
     ans = vlib.run_model(reqs, shards=12)
